@@ -277,6 +277,31 @@ def run(model, col, tier):
     pipe.makepass_process(col, "R11.4")
     pipe.check_gating(col, "R11.4")
     pipe.check_pass_freshness(col, "R11.4", ["ValidateFlowStatements"])
+    # ---- R11.6 every statement / function that was written reaches the validator -----------------
+    # (a statement dropped by a list production, or a function replaced in the module's list, is never visited: a misplaced
+    # break / continue inside it is accepted)
+    from .c08 import check_list_accumulation
+
+    check_list_accumulation(model, col, "R11.6", G)
+    mod_cls = model.cls(ASTF, "Module")
+    nadd = 0
+    for mname, m in sorted(mod_cls.methods.items()):
+        if not mname.startswith("Add") or len(m.args.args) != 2:
+            continue
+        nadd += 1
+        par = m.args.args[1].arg
+        lost = None
+        for evs, status in paths(m.body):
+            if status == "raise":
+                continue
+            stored = any(last_attr(c) in ("append", "add") and c.args and unparse(c.args[0]).strip("()") == par for c in calls_on_path(evs)) or \
+                any(e.kind == "stmt" and isinstance(e.node, ast.Assign) and isinstance(e.node.targets[0], ast.Subscript) and unparse(e.node.value) == par and
+                    not isinstance(e.node.targets[0].slice, (ast.Name, ast.Constant)) for e in evs)
+            if not stored:
+                lost = [(" ".join(unparse(e.node).split())[:50], e.val) for e in evs if e.kind == "cond"]
+        col.check(lost is None, "R11.6", f"{ASTF}::Module.{mname} adds what it is given", "the item is appended / entered under its own name on every returning path",
+                  f"under {lost} Module.{mname} does not add the item (or overwrites an existing entry by position): a definition disappears from the module and is never validated", ASTF, m)
+    col.floor("R11.6", "Module.Add* methods", nadd, 3)
     # ---- R11.5 ---------------------------------------------------------------
     from ..report import Collector
 
